@@ -60,23 +60,32 @@ Definition beyond_max (c : config) (fs : fsys) (f : name) : Prop :=
                 forall g, In g newer -> matched c fs g /\ name_lt f g.
 
 (* ---- hypotheses of the durability theorems *)
-(* the clock strings at which the rule is asked for a backup name: init, then every rotating write *)
-Fixpoint rot_stamps (c : config) (s : state) (h : list event) : list name :=
+(* the clock strings whose backup names matter: those already used for a rename, then the one the
+   logger currently holds (l.backup). A rotating write appends its clock string; a restart replaces
+   the held one (the abandoned name was never used). *)
+Definition next_used (c : config) (s : state) (used : list name) (e : event) : list name :=
+  match e with
+  | EWrite r now => if shall_rotate c (s_rot s) now (s_size s + rlen r) then used ++ [now] else used
+  | ERestart _ now0 => removelast used ++ [now0]
+  | _ => used
+  end.
+
+Fixpoint used_stamps (c : config) (s : state) (used : list name) (h : list event) : list name :=
   match h with
-  | [] => []
-  | e :: h' =>
-      match e with
-      | EWrite r now =>
-          if shall_rotate c (s_rot s) now (s_size s + rlen r) then now :: rot_stamps c (step c s e) h'
-          else rot_stamps c (step c s e) h'
-      | _ => rot_stamps c (step c s e) h'
-      end
+  | [] => used
+  | e :: h' => used_stamps c (step c s e) (next_used c s used e) h'
+  end.
+
+(* at no point are two of them equal -- "rotations at least a second apart" / the date never repeats *)
+Fixpoint stamps_distinct (c : config) (s : state) (used : list name) (h : list event) : Prop :=
+  match h with
+  | [] => True
+  | e :: h' => NoDup (next_used c s used e) /\ stamps_distinct c (step c s e) (next_used c s used e) h'
   end.
 
 Definition nows (h : list event) : list name :=
-  flat_map (fun e => match e with EWrite _ now => [now] | _ => [] end) h.
+  flat_map (fun e => match e with EWrite _ now => [now] | ERestart _ now0 => [now0] | _ => [] end) h.
 
-(* fixed-width clock strings (both formats are), and no two backup names chosen at the same clock
-   string -- the proviso "rotations at least a second apart" / the date never repeats *)
+(* fixed-width clock strings (both formats are), and distinct backup names *)
 Definition stamps_ok (c : config) (width : nat) (s0 : state) (now0 : name) (h : list event) : Prop :=
-  Forall (fun t => List.length t = width) (now0 :: nows h) /\ NoDup (now0 :: rot_stamps c s0 h).
+  Forall (fun t => List.length t = width) (now0 :: nows h) /\ stamps_distinct c s0 [now0] h.
